@@ -813,6 +813,15 @@ func c19ResvDeliver(w *c19ResvWorld, o c19ResvObjRef, kind string) {
 		n.ResourceVersion = "777"
 		n.Labels["c19/touched"] = "true"
 		w.ph.OnUpdate(o.pod.obj, n)
+	case "prebind-then-bound":
+		// the cut lies between PreBind's patch and the moment the binding becomes visible: the fresh scheduler first sees the
+		// pod still pending but already carrying the persisted allocation, then the update that only sets spec.nodeName
+		pend := o.pod.obj.DeepCopy()
+		pend.Spec.NodeName = ""
+		pend.Status.Phase = corev1.PodPending
+		pend.ResourceVersion = "1"
+		w.ph.OnAdd(pend, true)
+		w.ph.OnUpdate(pend, o.pod.obj)
 	}
 }
 
@@ -866,7 +875,7 @@ func (s *c19ResvSys) restartCheck() *c19ResvVerdict {
 		order := "reservations-before-their-pods"
 		seenR := map[int]bool{}
 		for _, ev := range seq {
-			if ev.kind != "add" {
+			if ev.kind != "add" && ev.kind != "prebind-then-bound" {
 				continue
 			}
 			o := objs[ev.obj]
@@ -943,6 +952,11 @@ func (s *c19ResvSys) restartCheck() *c19ResvVerdict {
 				if pos != n-1 {
 					judge(append(append([]c19ResvEvent{}, base...), c19ResvEvent{kind, o}), variant)
 				}
+			}
+			if objs[o].pod != nil && objs[o].pod.obj.Spec.NodeName != "" {
+				two := append([]c19ResvEvent{}, base...)
+				two[pos] = c19ResvEvent{"prebind-then-bound", o}
+				judge(two, "prebind-then-bound-pod")
 			}
 		}
 	})
@@ -1112,7 +1126,7 @@ func TestVerifC19Resv(t *testing.T) {
 		res.Evaluations += res.Counters["rebuilds"]
 		res.Distinct = cfg.nontrv.Len()
 		for _, need := range []string{"binds", "binds_onto_allocate_once", "binds_onto_restricted", "readback_equal", "states_with_pods_holding_an_active_reservation",
-			"states_with_consumed_allocate_once", "rebuilds_plain", "rebuilds_dup-add-pod", "rebuilds_same-update-pod", "rebuilds_dup-add-reservation", "rebuilds_same-update-reservation",
+			"states_with_consumed_allocate_once", "rebuilds_plain", "rebuilds_dup-add-pod", "rebuilds_same-update-pod", "rebuilds_prebind-then-bound-pod", "rebuilds_dup-add-reservation", "rebuilds_same-update-reservation",
 			"rebuilds_nontrivial_pod-before-its-reservation", "rebuilds_nontrivial_reservations-before-their-pods", "corollary_checked", "pod_deletes", "pod_terminations", "reserve_unreserve_cycles"} {
 			if res.Counters[need] == 0 {
 				res.Diag("VACUOUS: counter " + need + " stayed 0 in part " + cfg.name)
